@@ -161,7 +161,8 @@ func ListSolarFromBaZiBySectAndBaseYear(yearGanZhi string, monthGanZhi string, d
 	for y <= endYear {
 		if y >= startYear {
 			// 立春为寅月的开始
-			jieQiTable := NewLunarFromYmd(y, 1, 1).GetJieQiTable()
+			// the term table of civil year y (lunar 1/1 of year y can fall in civil year y-1, whose table is one year early)
+			jieQiTable := NewSolarFromYmd(y, 1, 1).GetLunar().GetJieQiTable()
 			// 节令推移，年干支和月干支就都匹配上了
 			solarTime := jieQiTable[JIE_QI_IN_USE[4+m]]
 			if solarTime.GetYear() >= baseYear {
